@@ -625,7 +625,7 @@ func (tr *trans) applyContract(fc *FuncContract, sig *types.Signature, key strin
 				tr.vc.declConst(f, es)
 				cur = store(cur, r, f)
 			}
-			tr.setState(st, name, cur)
+			tr.setState(st, name, cur, fp.at[name]...)
 		}
 		old := tr.getState(st, "$next")
 		n := tr.havocState(st, "$next")
@@ -714,8 +714,8 @@ func (tr *trans) builtin(v ssa.Value, b *ssa.Builtin, c *ssa.CallCommon, st Stat
 		dom := tr.getState(st, hd)
 		ln := tr.getState(st, hl)
 		was := and(not(eq(m, "0")), sel(sel(dom, m), k))
-		tr.setState(st, hl, ite(was, store(ln, m, app("-", sel(ln, m), "1")), ln))
-		tr.setState(st, hd, ite(was, store(dom, m, store(sel(dom, m), k, "false")), dom))
+		tr.setState(st, hl, ite(was, store(ln, m, app("-", sel(ln, m), "1")), ln), m)
+		tr.setState(st, hd, ite(was, store(dom, m, store(sel(dom, m), k, "false")), dom), m)
 	case "print", "println":
 	case "min", "max":
 		a, bb := tr.val(c.Args[0]), tr.val(c.Args[1])
@@ -811,7 +811,7 @@ func (tr *trans) appendCall(v ssa.Value, c *ssa.CallCommon, st State, pos token.
 		tr.vc.assume(fmt.Sprintf("(forall ((j Int)) (! (=> (and (<= 0 j) (< j %s)) (= (select %s j) (ite (< j %s) (select (select %s (sarr %s)) (+ (soff %s) j)) %s))) :pattern ((select %s j))))", newLen, fa, ln, A, s, s, elemAt(app("-", "j", ln)), fa))
 		freshArr = fa
 	}
-	tr.setState(st, h, ite(fits, ite(eq(n, "0"), A, store(A, "(sarr "+s+")", inPlace)), store(A, ref, freshArr)))
+	tr.setState(st, h, ite(fits, ite(eq(n, "0"), A, store(A, "(sarr "+s+")", inPlace)), store(A, ref, freshArr)), "(sarr "+s+")", ref)
 	tr.setVal(v, ite(fits, fmt.Sprintf("(mkSlice (sarr %s) (soff %s) %s (scap %s))", s, s, newLen, s), fmt.Sprintf("(mkSlice %s 0 %s %s)", ref, newLen, ncap)))
 }
 
@@ -838,7 +838,7 @@ func (tr *trans) copyCall(v ssa.Value, c *ssa.CallCommon, st State, pos token.Po
 	tr.vc.declConst(na, "(Array Int "+es+")")
 	base := "(soff " + d + ")"
 	tr.vc.assume(fmt.Sprintf("(forall ((j Int)) (! (= (select %s j) (ite (and (<= %s j) (< j (+ %s %s))) %s (select (select %s (sarr %s)) j))) :pattern ((select %s j))))", na, base, base, tr.vals[v], elemAt(app("-", "j", base)), A, d, na))
-	tr.setState(st, h, ite(eq(tr.vals[v], "0"), A, store(A, "(sarr "+d+")", na)))
+	tr.setState(st, h, ite(eq(tr.vals[v], "0"), A, store(A, "(sarr "+d+")", na)), "(sarr "+d+")")
 }
 
 // ---------------------------------------------------------------- closures, defer, go
